@@ -8,6 +8,7 @@ Script vocabulary (JSON):
           {op: snapshot}
 """
 import hashlib
+import struct
 
 import skepticoin.consensus as consensus
 import skepticoin.cheating as cheating
@@ -111,6 +112,14 @@ class LedgerSim:
                 # blocks: by-itself valid, never validated in chain); everything above it inherits the trivial
                 # target and is fully valid relative to its parent.
                 cs, easy = W.easy_block_one(cs)
+        elif base == 'hhalving':
+            # a trusted tip 1-4 blocks below a subsidy halving (k-th era boundary), far above the checkpoint horizon
+            reset_horizon(False)
+            kk = config.get('k', 1)
+            h0 = kk * 1_050_000 - 1 - config.get('j', 0) % 4
+            cs, root, _f = W.hollow_base_far(h0, HARD_TARGET if hard else W.TRIVIAL_TARGET)
+            fts = W.BASE_TS - 10_000_000
+            filler_ts = (lambda h: fts)
         elif base == 'hboundary2':
             # two trusted tips whose histories differ at the start of the retarget period being closed
             reset_horizon(False)
@@ -328,6 +337,8 @@ class LedgerSim:
         # C05/C12 clause on the assembled block: reward == subsidy + fees to the miner's key
         if block.header.summary.height % rules.RETARGET_PERIOD == 0:
             self.res.bump('probe:retarget_boundary_crossed')
+        if block.header.summary.height % rules.HALVING == 0:
+            self.res.bump('probe:halving_boundary_crossed')
         old_head = self.cs.current_chain_hash
         bid = self.deliver(block, now, 'honest', {'kind': 'mine', 'via': op.get('via', 'memory'), 'op': op})
         if bid is not None:
@@ -368,7 +379,7 @@ class LedgerSim:
         except Unminable:
             self.res.bump('unminable')
             return
-        except (ValueError, OverflowError, KeyError, IndexError, TypeError):
+        except (ValueError, OverflowError, KeyError, IndexError, TypeError, struct.error):
             made = None   # the forged value cannot even be constructed / encoded: nothing a peer could send
         if made is None:
             self.res.bump('forgery_degenerate:' + kind)
